@@ -195,3 +195,64 @@ def gen_wasmsel():
     lines += ["]", "end FerretVerif.Gen", ""]
     write_gen("WasmSel", "\n".join(lines))
     return problems, rows
+
+
+def check_wasm_selection(rep, pid, tier, stats):
+    """C02 tie of Gen.wasmSel / Model.WasmSem to the code: the table is regenerated; the observation programs of lib/qbesel.py are run natively and
+    under node and each printed result is compared (a) wasm against native — the property — and (b) against the two models (`fvdriver wasm-row`,
+    `qbe-row`); for a wasm row no longer of a proved shape the operands are searched for one on which its stack code differs from the specification."""
+    problems, rows = gen_wasmsel()
+    qproblems, qrows, _ = qbesel.gen_qbesel(tier, seed(), run=False)
+    for pr in problems + qproblems:
+        rep.fail("tie:sel:" + hashlib.sha1(pr.encode()).hexdigest()[:10], "instruction-selection table cannot be regenerated: " + pr, {"kind": "broken-obligation", "detail": pr}, no_input=True)
+    chunks = qbesel.observation_chunks(tier, seed())
+    wobs, wpr = qbesel.run_chunks(chunks, "wasm")
+    nobs, npr = qbesel.run_chunks(chunks, "native")
+    for pr in wpr + npr:
+        rep.fail("tie:selrun:" + hashlib.sha1(pr.encode()).hexdigest()[:10], pr, {"kind": "broken-obligation", "detail": pr}, no_input=True)
+    bykey = {(k, op, t1, t2): (np_, nl, toks) for k, op, t1, t2, np_, nl, lean, toks in rows}
+    qs, meta = [], []
+    for (kind, op, t1, t2, args, wprinted), nat in zip(wobs, nobs):
+        ent = bykey.get((kind, op, t1, t2))
+        if ent is None: continue
+        qs.append("%s %s %s %d %s %d %d %d %s | %s" % (kind, op, t1[1:], t1[0] == "i", t2[1:], t2[0] == "i", ent[0], ent[1], ",".join(str(a) for a in args), " ".join(ent[2])))
+        meta.append((kind, op, t1, t2, args, wprinted, nat[5]))
+    out = run_driver(["wasm-row"], "\n".join(qs) + "\n").split("\n")[:-1] if qs else []
+    other_rows, model_cex, disagree, compared, model_off = {}, {}, 0, 0, 0
+    for (kind, op, t1, t2, args, wprinted, nprinted), line in zip(meta, out):
+        f = line.split()
+        if len(f) != 3:
+            rep.fail("tie:wasmsel:driver", "fvdriver wasm-row rejects a regenerated row: %s" % line, {"kind": "broken-obligation"}, no_input=True); break
+        shape, spec, ex = f
+        key = (kind, op, t1, t2)
+        if shape != "ok":
+            other_rows.setdefault(key, 0)
+            if spec != "none" and ex != "none" and spec != ex and key not in model_cex:
+                model_cex[key] = (args, spec, ex)
+        if spec == "none": continue
+        want = spec if kind != "cmp" else ("true" if spec == "1" else "false")
+        compared += 1
+        vkey = "sel:%s:%s:%s:%s" % key
+        if wprinted != nprinted:
+            disagree += 1
+            if not any(v[0] == vkey for v in rep.violations):
+                rep.fail(vkey, "%s on %s operands %s prints %r natively and %r on wasm (the semantics prescribe %s; emitted stack code: %s; its value in the wasm model: %s)" %
+                         (op if kind != "cast" else "cast to " + t2, t1, list(args), nprinted, wprinted, want, " ".join(bykey[key][2]), ex),
+                         {"kind": "selection", "function": fname_of(*key), "operands": list(args), "native": nprinted, "wasm": wprinted, "expected": want, "code": bykey[key][2]})
+        elif wprinted != want:
+            model_off += 1       # both back ends agree with each other but not with the specification: C01's concern, counted here
+    for key in other_rows:
+        if any(v[0] == "sel:%s:%s:%s:%s" % key for v in rep.violations):
+            continue
+        code = " ".join(bykey[key][2])
+        if key in model_cex:
+            args, spec, ex = model_cex[key]
+            rep.fail("selmodel:%s:%s:%s:%s" % key, "the stack code now emitted for %s %s->%s (%s) is not of a proved shape and, in the wasm model, yields %s on operands %s where the semantics prescribe %s; "
+                     "the two executables did not show a difference" % (key[1], key[2], key[3], code, ex, list(args), spec),
+                     {"kind": "broken-obligation", "theorem": "FerretVerif.C02.wasm_sel_table_known_shapes", "row": list(key), "code": code, "operands": list(args)}, no_input=True)
+        else:
+            rep.fail("selshape:%s:%s:%s:%s" % key, "the stack code now emitted for %s %s->%s (%s) is not of a shape proved correct (theorem wasm_sel_table_known_shapes no longer checks)" % (key[1], key[2], key[3], code),
+                     {"kind": "broken-obligation", "theorem": "FerretVerif.C02.wasm_sel_table_known_shapes", "row": list(key), "code": code}, no_input=True)
+    stats["selection"] = {"wasm_rows": len(rows), "wasm_rows_of_proved_shape": len(rows) - len(other_rows), "native_rows": len(qrows), "observations_compared": compared,
+                          "native_vs_wasm_disagreements": disagree, "agree_but_off_specification": model_off}
+    return stats["selection"]
